@@ -125,6 +125,17 @@ Section RestrictionTie.
       (destruct (Z.ltb_spec 0 ic); destruct (Z.ltb_spec ic (nscc - 1)); destruct (Z.ltb_spec nscc ic); destruct (Z.ltb_spec ic (nrc - 1));
        try lia; cbn [andb app fst snd apply_row2 fold_right]; rewrite ?app_nil_r; f_equal; f_equal; rsc; field).
   Qed.
+
+  (* injection: the coarse node takes the value of the fine node it coincides with (model row Inj_row, a single unit entry) *)
+  Theorem gen_injection_is_model : forall (x : Z -> Z -> R) (ic jc : Z), (0 <= ic < nrc)%Z -> (0 <= jc < nthc)%Z ->
+    @gen_injection_circle Rsc nth nthc x ic jc = [ (((ic, jc), W_result_WAssign), @apply_row2 Rsc (@Inj_row Rsc ic jc) x) ] /\
+    @gen_injection_radial Rsc nth nthc x ic jc = [ (((ic, jc), W_result_WAssign), @apply_row2 Rsc (@Inj_row Rsc ic jc) x) ].
+  Proof.
+    intros x ic jc Hi Hj. destruct nthc_facts' as [E Hc].
+    unfold gen_injection_circle, gen_injection_radial, Inj_row. cbv zeta.
+    replace (ic * 2)%Z with (2 * ic)%Z by lia. replace (jc * 2)%Z with (2 * jc)%Z by lia. rwraps jc.
+    cbn [apply_row2 fold_right fst snd]. split; f_equal; f_equal; rsc; ring.
+  Qed.
 End RestrictionTie.
 
 
